@@ -27,7 +27,7 @@ StepB == Step("B")
 \* (by reference again, or -- once -- by Rc, which consumes the fork: "re-split after earlier use")
 IsRc == \E i \in 1..Len(hist) : hist[i].ev = "resplit" /\ hist[i].a.to = "rc"
 Resplit == /\ hist[1].cfg.variant = "ref" /\ Len(hist) <= SchedLen /\ NRes < MaxResplit /\ ~IsRc
-           /\ \E to \in {"ref", "rc"} : hist' = Append(hist, [ev |-> "resplit", a |-> [to |-> to]])
+           /\ \E to \in {"ref", "rc", "clone"} : hist' = Append(hist, [ev |-> "resplit", a |-> [to |-> to]])   \* clone: the fork itself is cloned first
            /\ last' = [branch |-> "none", frame |-> 0]
            /\ UNCHANGED << st, pos, cap >>
 Next == StepA \/ StepB \/ Resplit
